@@ -9,7 +9,7 @@ CLAIM = ('Real PlannerTerminationCondition.cpp / IterationTerminationCondition.c
          'against an arbitrary non-decreasing clock is false before and true after the duration and never reverts; the exact-solution '
          'condition mirrors hasExactSolution(); one step of the cost-convergence condition from an arbitrary (average,count) state fires '
          'exactly when the window is full and the new moving average is within the relative threshold.')
-OUT = ('the periodically evaluated form (evaluation thread: start/stop, "no later than one period") and terminate() from another thread - '
+OUT = ('the evaluation thread of the periodic form (start/stop, "no later than one period"; only eval() on an arbitrary cached verdict is checked) and terminate() from another thread - '
        'threads are not encodable (std::thread start is a fatal stub); nesting depth above 2; Planner::solve(double) wiring')
 ASSUMPTIONS = ['std::chrono::system_clock::now() is an arbitrary non-decreasing clock', 'logging is a no-op',
                'ProblemDefinition::hasExactSolution is a symbolic bit', 'real libstdc++ std::function/make_shared code is part of the encoded IR']
@@ -21,7 +21,7 @@ def queries(tier):
     to = 300 if tier == 'quick' else 900
     qs = []
     for e, uw in (('iteration', 6), ('iteration_ptc', 8), ('predicate', 6), ('constants', 5), ('or_and', 5), ('nested', 5),
-                  ('exact_solution', 5)):
+                  ('exact_solution', 5), ('impl_eval', 5)):
         qs.append(Query(e, 'C18_ptc.cpp', 'harness_' + e, tus=TU, unwind=uw, timeout=to, bound='see harness: traces of <=4 evaluations'))
     for ms in ([0, 1, 999, 1500, 60000] if tier == 'quick' else [0, 1, 2, 10, 999, 1000, 1001, 1500, 2500, 60000, 3600000, 99999999]):
         qs.append(Query('timed[ms=%d]' % ms, 'C18_ptc.cpp', 'harness_timed', tus=TU, defines={'MS': ms}, unwind=6, timeout=to,
